@@ -324,7 +324,7 @@ theorem ti_begin {Lm tt rt : Nat} {s : NetState} (hti : TI Lm tt rt s) {ds : Lis
 /-! ### the master's calls -/
 
 section
-variable (C : L3Contracts) {p0 a1 : Bytes} {aN : List Nat} {Lm tt rt : Nat} (hLm : 24 ≤ Lm)
+variable (C : C15Contracts) {p0 a1 : Bytes} {aN : List Nat} {Lm tt rt : Nat} (hLm : 24 ≤ Lm)
 
 omit C hLm in
 theorem lt_st_modNode {v : Nat} {s0 s : NetState} (h : LT p0 a1 aN Lm tt rt v s0 s) (g : Node → Node)
